@@ -367,6 +367,335 @@ pub fn exec(case: &Case) -> Outcome {
     })
 }
 
+
+// ---- second sub-check: GC behind real compactions --------------------------------------
+
+#[derive(Clone, Debug, Serialize, Deserialize)]
+pub enum FaultAt {
+    /// the n-th request of the cycle, whatever it is
+    Step(u8),
+    /// the n-th catalog write of the cycle (conditional PUT of catalog.json / publish_compaction / complete_compaction)
+    CatalogWrite(u8),
+    /// the n-th upload of a data file
+    DataUpload(u8),
+    /// the n-th write of any other metadata object (leases, jobs, pending deletions)
+    OtherMetaWrite(u8),
+}
+
+#[derive(Clone, Debug, Serialize, Deserialize)]
+pub enum GOp {
+    Cycle { schedule: Vec<u16>, fault: Option<(FaultAt, Decision)> },
+    Advance(u8),
+    Restart,
+    Pin { pick: u16 },
+    Unpin { pick: u16 },
+}
+
+#[derive(Clone, Debug, Serialize, Deserialize)]
+pub struct GCase {
+    pub chunks: Vec<ChunkSpec>,
+    pub l0_threshold: u8,
+    pub l1_target: u8,
+    pub grace: u8,
+    pub backend: u8,
+    pub ops: Vec<GOp>,
+}
+
+fn is_catalog_write(d: &ReqDesc) -> bool {
+    match d.op {
+        OpKind::Put => d.path.ends_with("catalog.json"),
+        OpKind::Meta => matches!(d.detail.as_str(), "publish_compaction" | "complete_compaction" | "delete_chunk" | "register_chunk"),
+        _ => false,
+    }
+}
+
+pub fn exec_compaction(case: &GCase) -> Outcome {
+    let rt = rt_paused();
+    rt.block_on(async {
+        let mut out = Outcome::pass();
+        let core = SimCore::new();
+        let mut world = match CWorld::build(core.clone(), case.backend % 2 == 1, &case.chunks).await {
+            Ok(w) => w,
+            Err(e) => {
+                out.set_fail("build-failed", e);
+                return out;
+            }
+        };
+        out.class(if world.s3 { "backend:s3" } else { "backend:local" });
+        let grace = GRACES[case.grace as usize % 4] as i64;
+        let cfg = CompactorConfig {
+            l0_merge_threshold: 2 + (case.l0_threshold % 2) as usize,
+            l0_target_size: 1 << 20,
+            l1_target_size: TARGETS[case.l1_target as usize % 4],
+            l2_target_size: 1 << 30,
+            max_levels: 2,
+            retention_days: 90,
+            gc_grace_period: std::time::Duration::from_secs(grace as u64),
+            sharding_enabled: false,
+            check_interval: std::time::Duration::from_secs(60),
+            ..Default::default()
+        };
+        let pins = ChunkPinRegistry::new();
+        let mk = |world: &CWorld, node: u32| -> Arc<Compactor> { Arc::new(Compactor::new(cfg.clone(), core.node(node), world.metadata(node), crate::qenv::storage_config(), Arc::new(cardinalsin::sharding::ShardMonitor::new(Default::default()))).with_pin_registry(pins.clone())) };
+        let mut node = 1u32;
+        let mut comp: Option<Arc<Compactor>> = Some(mk(&world, node));
+        let mut shift = 0i64;
+        let lnow = |shift: i64| chrono::Utc::now().timestamp() + shift;
+        let mut guards: Vec<(String, cardinalsin::compactor::pins::PinGuard)> = Vec::new();
+        // every path ever seen in the catalog -> logical second at which it was seen to have left it
+        let mut seen: BTreeMap<String, Option<i64>> = BTreeMap::new();
+        let mut persisted_any = false;
+        let mut deletes = 0u32;
+        let mut compaction_sources_deleted = false;
+
+        macro_rules! observe {
+            () => {{
+                let now: BTreeSet<String> = world.catalog().await.unwrap_or_default().into_iter().map(|x| x.0).collect();
+                for p in &now {
+                    seen.entry(p.clone()).or_insert(None);
+                }
+                let t = lnow(shift);
+                for (p, u) in seen.iter_mut() {
+                    if !now.contains(p) && u.is_none() {
+                        *u = Some(t);
+                    } else if now.contains(p) && u.is_some() {
+                        *u = None; // referenced again
+                    }
+                }
+                now
+            }};
+        }
+        let _ = observe!();
+
+        for (oi, op) in case.ops.iter().enumerate() {
+            match op {
+                GOp::Advance(a) => {
+                    let secs = ADVANCES[*a as usize % 4];
+                    shift += secs;
+                    core.add_shift(secs);
+                    if let Some(c) = &comp {
+                        c.verif_shift_pending_deletions(secs);
+                    }
+                    shift_pending_file(&core, secs);
+                    crate::props::c03::shift_leases(&world, secs);
+                }
+                GOp::Restart => {
+                    if let Some(c) = comp.take() {
+                        core.kill(node);
+                        drop(c);
+                        out.class("restart");
+                    }
+                }
+                GOp::Pin { pick } => {
+                    let all: Vec<&String> = seen.keys().filter(|p| !p.starts_with("dummy/")).collect();
+                    if !all.is_empty() {
+                        let p = all[pick_idx(*pick, all.len())].clone();
+                        let g = pins.pin(vec![p.clone()]);
+                        guards.push((p, g));
+                    }
+                }
+                GOp::Unpin { pick } => {
+                    if !guards.is_empty() {
+                        guards.remove(pick_idx(*pick, guards.len()));
+                    }
+                }
+                GOp::Cycle { schedule, fault } => {
+                    let mut new_process = false;
+                    let c = match &comp {
+                        Some(c) => c.clone(),
+                        None => {
+                            node += 1;
+                            let c = mk(&world, node);
+                            comp = Some(c.clone());
+                            new_process = true;
+                            c
+                        }
+                    };
+                    // a new process goes through run(), which loads the persisted deletions first
+                    let fresh_process = new_process && persisted_any;
+                    let c2 = c.clone();
+                    let token = c.shutdown_token();
+                    let h = if fresh_process {
+                        out.class("restarted-process-loads-persisted-deletions");
+                        tokio::spawn(async move { c2.run().await })
+                    } else {
+                        tokio::spawn(async move {
+                            let _ = c2.run_compaction_cycle().await;
+                        })
+                    };
+                    core.set_scheduled(true);
+                    core.set_gate_nodes(Some(vec![node]));
+                    let (mut pos, mut step, mut idle) = (0usize, 0u32, 0u32);
+                    let (mut n_cat, mut n_up, mut n_meta) = (0u32, 0u32, 0u32);
+                    let mut crashed = false;
+                    let mut fault_fired = false;
+                    let mut persisted_this_cycle = false;
+                    loop {
+                        quiesce().await;
+                        if h.is_finished() || crashed {
+                            break;
+                        }
+                        let pend = core.pending();
+                        if pend.is_empty() {
+                            idle += 1;
+                            if fresh_process && persisted_this_cycle {
+                                token.cancel();
+                            }
+                            if idle > 3000 {
+                                out.set_fail("cycle-did-not-finish", format!("op {}: cycle neither finished nor parked", oi));
+                                return out;
+                            }
+                            let n = core.arrival.notified();
+                            tokio::select! { _ = n => {}, _ = tokio::time::sleep(std::time::Duration::from_secs(5)) => {} }
+                            continue;
+                        }
+                        idle = 0;
+                        if step > 20_000 {
+                            out.set_fail("cycle-did-not-finish", format!("op {}: more than 20000 requests", oi));
+                            return out;
+                        }
+                        let live_now = observe!();
+                        let sv = if pos < schedule.len() { schedule[pos] } else { ((pos as u32 * 7919) % 65521) as u16 };
+                        pos += 1;
+                        let pick = pend[pick_idx(sv, pend.len())].clone();
+                        let d0 = &pick.desc;
+                        if d0.op == OpKind::Put && d0.path.ends_with("pending-deletions.json") {
+                            persisted_this_cycle = true;
+                            persisted_any = true;
+                        }
+                        if d0.op == OpKind::Delete {
+                            let path = d0.path.clone();
+                            deletes += 1;
+                            if path.ends_with(".json") {
+                                out.set_fail("metadata-object-deleted", path);
+                                return out;
+                            }
+                            if live_now.contains(&path) {
+                                out.set_fail("live-chunk-file-deleted", format!("op {}: {} is registered in the catalog at the instant of the physical delete", oi, path));
+                                return out;
+                            }
+                            match seen.get(&path) {
+                                None => {
+                                    // never referenced by the catalog (e.g. the output of a compaction that was not published)
+                                    out.class("never-referenced-file-deleted");
+                                }
+                                Some(None) => unreachable!(),
+                                Some(Some(u)) => {
+                                    let age = lnow(shift) - u;
+                                    if age < grace - AMBIG_S {
+                                        out.set_fail("deleted-before-grace-period", format!("op {}: {} unreferenced for {} s, grace period {} s", oi, path, age, grace));
+                                        return out;
+                                    }
+                                    compaction_sources_deleted = true;
+                                }
+                            }
+                            if guards.iter().any(|(p, _)| *p == path) {
+                                out.set_fail("pinned-file-deleted", format!("op {}: {} is pinned by a running query at the instant of the physical delete", oi, path));
+                                return out;
+                            }
+                        }
+                        let mut d = Decision::Proceed;
+                        if let Some((at, fd)) = fault {
+                            let cat = is_catalog_write(d0);
+                            let up = d0.op == OpKind::Put && d0.path.ends_with(".parquet");
+                            let meta = !cat && !up && (d0.op == OpKind::Put || d0.op == OpKind::Meta);
+                            let hit = !fault_fired
+                                && match at {
+                                    FaultAt::Step(k) => *k as u32 == step,
+                                    FaultAt::CatalogWrite(k) => cat && *k as u32 == n_cat,
+                                    FaultAt::DataUpload(k) => up && *k as u32 == n_up,
+                                    FaultAt::OtherMetaWrite(k) => meta && *k as u32 == n_meta,
+                                };
+                            if hit {
+                                d = *fd;
+                                fault_fired = true;
+                                out.count("faults_injected", 1);
+                                if cat {
+                                    out.class(match fd {
+                                        Decision::FailAfter => "catalog-write-applied-but-reported-failed",
+                                        Decision::FailBefore => "catalog-write-failed",
+                                        _ => "crash-at-catalog-write",
+                                    });
+                                }
+                            }
+                            n_cat += cat as u32;
+                            n_up += up as u32;
+                            n_meta += meta as u32;
+                        }
+                        step += 1;
+                        if matches!(d, Decision::CrashBefore | Decision::CrashAfter) {
+                            crashed = true;
+                            out.class("crash-mid-cycle");
+                        }
+                        core.release(pick.id, d);
+                    }
+                    out.count("requests_scheduled", step as u64);
+                    quiesce().await;
+                    if crashed {
+                        h.abort();
+                        core.kill(node);
+                        comp = None;
+                    } else {
+                        token.cancel();
+                    }
+                    if let Err(e) = h.await {
+                        if e.is_panic() {
+                            let p = take_last_panic().unwrap_or_default();
+                            out.set_fail(format!("compactor-panic:{}", panic_site(&p)), p);
+                            return out;
+                        }
+                    }
+                    core.set_scheduled(false);
+                    core.set_gate_nodes(None);
+                    let _ = observe!();
+                    // with nothing in flight, every row stored initially is readable through the catalog
+                    match world.reachable().await {
+                        Ok(got) => {
+                            if got != world.initial_rows {
+                                let missing = world.initial_rows.iter().filter(|r| !got.contains(r)).count();
+                                let sig = if missing > 0 { "rows-unreachable-after-gc" } else { "rows-duplicated" };
+                                out.set_fail(sig, format!("after op {}: {} rows reachable, {} stored, {} unreachable", oi, got.len(), world.initial_rows.len(), missing));
+                                return out;
+                            }
+                        }
+                        Err(e) => {
+                            out.set_fail("catalog-unreadable", e);
+                            return out;
+                        }
+                    }
+                }
+            }
+        }
+        if deletes > 0 {
+            out.class("a-file-was-deleted");
+        }
+        if seen.values().any(|u| u.is_some()) {
+            out.class("compaction-published");
+        }
+        out.nontrivial = compaction_sources_deleted;
+        out
+    })
+}
+
+fn gop() -> impl Strategy<Value = GOp> {
+    let fault_at = prop_oneof![3 => (0u8..3).prop_map(FaultAt::CatalogWrite), 2 => (0u8..40).prop_map(FaultAt::Step), 1 => (0u8..3).prop_map(FaultAt::DataUpload), 1 => (0u8..6).prop_map(FaultAt::OtherMetaWrite)];
+    let decision = prop_oneof![2 => Just(Decision::FailBefore), 3 => Just(Decision::FailAfter), 1 => Just(Decision::CrashBefore), 1 => Just(Decision::CrashAfter)];
+    prop_oneof![
+        6 => (prop::collection::vec(any::<u16>(), 0..12), prop::option::weighted(0.5, (fault_at, decision))).prop_map(|(schedule, fault)| GOp::Cycle { schedule, fault }),
+        4 => (0u8..4).prop_map(GOp::Advance),
+        1 => Just(GOp::Restart),
+        1 => any::<u16>().prop_map(|pick| GOp::Pin { pick }),
+        1 => any::<u16>().prop_map(|pick| GOp::Unpin { pick }),
+    ]
+}
+
+fn gstrategy(t: Tier) -> BoxedStrategy<GCase> {
+    let chunk = (0u8..2, 0u8..6).prop_map(|(hours_ago, rows)| ChunkSpec { hours_ago, rows, level: 0, schema: 0 });
+    (prop::collection::vec(chunk, 2..7), 0u8..2, 0u8..4, 0u8..4, 0u8..2, prop::collection::vec(gop(), 2..t.pick(10usize, 16usize)))
+        .prop_map(|(chunks, l0_threshold, l1_target, grace, backend, ops)| GCase { chunks, l0_threshold, l1_target, grace, backend, ops })
+        .boxed()
+}
+
 fn op() -> impl Strategy<Value = Op> {
     prop_oneof![
         5 => (0u8..6, prop::bool::weighted(0.3)).prop_map(|(delta, straddle)| Op::Register { delta, straddle }),
@@ -387,8 +716,13 @@ pub fn def() -> PropDef {
     PropDef {
         id: "C09",
         level: "exploration",
-        rule: "gc_grace_period in {0,30,300,600} s x retention_days 0-3 x both catalog back-ends; histories of 2-15 (thorough 27) ops from {register a chunk whose newest row is cut-off + {-2 d,-1 h,-45 s,+45 s,+1 h,+1 d}, optionally straddling the cut-off; unreference (catalog delete + the public schedule_deletion, as the call sites do); pin / unpin by a query; 11/43/310/700 s pass; compaction cycle (GC + retention + persist) under a generated schedule, optionally with a pin taken while the k-th delete request is in flight and / or a crash at a generated request; restart}; final phase: restart, grace+5 s pass, one cycle. Oracle at every physical DELETE: the path was unreferenced for >= grace (logical time, +-3 s ambiguity), is not pinned at that instant, is not registered in the catalog, is a known chunk file and not a metadata object; every chunk retention dropped has max_ts < the cut-off computed after the cycle; every deletion persisted by a completed cycle is carried out by the final phase. Non-trivial = a file was deleted, or a pinned / straddling candidate or owed persisted deletion was present.",
+        rule: "gc_grace_period in {0,30,300,600} s x retention_days 0-3 x both catalog back-ends; histories of 2-15 (thorough 27) ops from {register a chunk whose newest row is cut-off + {-2 d,-1 h,-45 s,+45 s,+1 h,+1 d}, optionally straddling the cut-off; unreference (catalog delete + the public schedule_deletion, as the call sites do); pin / unpin by a query; 11/43/310/700 s pass; compaction cycle (GC + retention + persist) under a generated schedule, optionally with a pin taken while the k-th delete request is in flight and / or a crash at a generated request; restart}; final phase: restart, grace+5 s pass, one cycle. Oracle at every physical DELETE: the path was unreferenced for >= grace (logical time, +-3 s ambiguity), is not pinned at that instant, is not registered in the catalog, is a known chunk file and not a metadata object; every chunk retention dropped has max_ts < the cut-off computed after the cycle; every deletion persisted by a completed cycle is carried out by the final phase. Non-trivial = a file was deleted, or a pinned / straddling candidate or owed persisted deletion was present. Sub-check compaction-gc: 2-6 real L0 Parquet chunks in two hour buckets, l0_merge_threshold 2-3, L1 target in {1 B, 1.5 KB, 6 KB, 1 GiB}, 2 levels, same grace periods, both back-ends; histories of 2-9 (15) ops from {full compaction cycle (merge, publish, GC, persist) under a generated schedule with an optional fault {error before, error after = applied but reported failed, crash before, crash after} at the n-th catalog write / data upload / other metadata write / request; time passing; restart (the next cycle goes through run(), which loads persisted deletions); pin / unpin of any chunk that ever was in the catalog}. The catalog is observed before every request is released, which dates the instant each chunk left it; same oracle at every physical DELETE (never-referenced files, e.g. unpublished merge outputs, may be deleted), plus after every cycle the rows reachable through the catalog equal the rows stored. Non-trivial there = a file that had been in the catalog was physically deleted.",
         assumptions: &["elapsed time = stored scheduling instants moved into the past (hook + rewrite of the persisted file)", "retention is judged with the cut-off computed after the call, which is >= any cut-off used inside it"],
-        subs: || vec![Box::new(Sub::<Case> { name: "history", cases: |t| t.scale(15_000, 5), strategy, exec })],
+        subs: || {
+            vec![
+                Box::new(Sub::<Case> { name: "history", cases: |t| t.scale(15_000, 5), strategy, exec }),
+                Box::new(Sub::<GCase> { name: "compaction-gc", cases: |t| t.scale(4_000, 6), strategy: gstrategy, exec: exec_compaction }),
+            ]
+        },
     }
 }
